@@ -436,6 +436,27 @@ func genAdvOp(rt *rapid.T, nm *hx.NodeMachine, cfg genCfg) hx.NOp {
 	switch kind {
 	case 0: // outputs != inputs
 		addTo(&base, rapid.IntRange(0, last).Draw(rt, "which"), int64(rapid.SampledFrom([]int{1, -1, 1000}).Draw(rt, "delta")))
+		inSum, outSum := big.NewInt(0), big.NewInt(0)
+		for _, in := range base.Ins {
+			a, _ := new(big.Int).SetString(in.Amount, 10)
+			inSum.Add(inSum, a)
+		}
+		for _, o := range base.Outs {
+			a, _ := new(big.Int).SetString(o.Amount, 10)
+			outSum.Add(outSum, a)
+		}
+		flag := rapid.IntRange(0, 3).Draw(rt, "flag")
+		if inSum.Cmp(outSum) == 0 {
+			flag = 3 // the clamp at zero left it balanced: the pool path refuses the autogen flag on ANY transaction
+		}
+		switch flag {
+		case 0:
+			base.Marked = true // "modified by the regulator": not covered by id or signature
+			return hx.NOp{Op: "tx", Tx: &base, Expect: "unbalanced+marked-flag"}
+		case 1:
+			base.Autogen = true
+			return hx.NOp{Op: "tx", Tx: &base, Expect: "unbalanced+autogen-flag"}
+		}
 		return hx.NOp{Op: "tx", Tx: &base, Expect: "unbalanced"}
 	case 1: // the same input twice, outputs balanced against the cited sum
 		base.Ins = append(base.Ins, base.Ins[0])
@@ -608,7 +629,7 @@ func genAdvPeer(rt *rapid.T, nm *hx.NodeMachine, cfg genCfg) hx.NOp {
 		if spec, ok := genTxSpec(rt, nm, s, plain, 0, false); ok {
 			op.Txs = append([]hx.TxSpec{spec}, op.Txs...)
 			op.Old = nil
-			op.TxMut = rapid.SampledFrom([]string{"autogen", "autogen", "nosig", "othersig"}).Draw(rt, "txmut")
+			op.TxMut = rapid.SampledFrom([]string{"autogen", "marked", "nosig", "othersig"}).Draw(rt, "txmut")
 			op.Expect = "unsigned-tx-in-block"
 		}
 	case 0:
